@@ -92,7 +92,7 @@ MUTANTS['C09'] = [
 MUTANTS['C10'] = [
   ('cache-keyed-by-raw-negative-index', [(C, "                item = item + len(self)\n                if item < 0:\n                    raise IndexError(_item)\n            try:\n                return self._cache[item]", "                if item + len(self) < 0:\n                    raise IndexError(_item)\n            try:\n                return self._cache[item]")]),
   ('copy-creates-new-cachewrapper', [(C, "        copy._cache = self._cache\n        copy._keep_mem_free = self._keep_mem_free", "        copy._cache = _CacheWrapper()\n        copy._keep_mem_free = self._keep_mem_free")]),
-  ('key-path-caches-under-key-string', [(C, "        if isinstance(item, str):\n            item = self.keys().index(item)\n\n        if isinstance(item, numbers.Integral):\n            if item < 0:", "        if isinstance(item, str):\n            if item not in self._cache:\n                value = self.input_dataset[item]\n                if self.check():\n                    self._cache[item] = value\n                return value\n            return self._cache[item]\n\n        if isinstance(item, numbers.Integral):\n            if item < 0:")]),
+  ('key-path-caches-under-key-string', [(C, "        if isinstance(item, str):\n            item = self.keys().index(item)\n\n        if isinstance(item, numbers.Integral):\n            # numpy integers", "        if isinstance(item, str):\n            if item not in self._cache:\n                value = self.input_dataset[item]\n                if self.check():\n                    self._cache[item] = value\n                return value\n            return self._cache[item]\n\n        if isinstance(item, numbers.Integral):\n            # numpy integers")]),
   ('check-ignores-memory', [(C, "        if psutil.virtual_memory().available <= self._keep_mem_free:", "        if psutil.virtual_memory().available <= 0:")]),
   ('latch-caches-every-other', [(C, "        if not self._do_cache:\n            return False\n", "        if not self._do_cache:\n            self._do_cache = True\n            return True\n")]),
   ('store-before-compute-stale', [(C, "                value = self.input_dataset[item]\n                if self.check():\n                    self._cache[item] = value\n                return value", "                value = self.input_dataset[item]\n                if self.check():\n                    self._cache[item] = value\n                    return self.input_dataset[item] if item == 2 else value\n                return value")]),
